@@ -71,6 +71,22 @@ using SymEngine::vec_boolean;
 
 #include "symengine/parser/tokenizer.h"
 
+namespace
+{
+
+// Operands of the logical operators must be Boolean: a static cast of
+// anything else (e.g. the Symbol in "~x" or "x | y") is undefined behaviour.
+RCP<const Boolean> as_boolean(const RCP<const Basic> &b)
+{
+    if (!SymEngine::is_a_Boolean(*b)) {
+        throw SymEngine::ParseError(
+            "Boolean operator received non-boolean arguments");
+    }
+    return rcp_static_cast<const Boolean>(b);
+}
+
+} // namespace
+
 namespace yy
 {
 
@@ -913,8 +929,8 @@ namespace yy {
 #line 157 "parser.yy"
         {
             set_boolean s;
-            s.insert(rcp_static_cast<const Boolean>(yystack_[2].value.as < SymEngine::RCP<const SymEngine::Basic> > ()));
-            s.insert(rcp_static_cast<const Boolean>(yystack_[0].value.as < SymEngine::RCP<const SymEngine::Basic> > ()));
+            s.insert(as_boolean(yystack_[2].value.as < SymEngine::RCP<const SymEngine::Basic> > ()));
+            s.insert(as_boolean(yystack_[0].value.as < SymEngine::RCP<const SymEngine::Basic> > ()));
             yylhs.value.as < SymEngine::RCP<const SymEngine::Basic> > () = rcp_static_cast<const Basic>(logical_or(s));
         }
 #line 921 "parser.tab.cc"
@@ -924,8 +940,8 @@ namespace yy {
 #line 165 "parser.yy"
         {
             set_boolean s;
-            s.insert(rcp_static_cast<const Boolean>(yystack_[2].value.as < SymEngine::RCP<const SymEngine::Basic> > ()));
-            s.insert(rcp_static_cast<const Boolean>(yystack_[0].value.as < SymEngine::RCP<const SymEngine::Basic> > ()));
+            s.insert(as_boolean(yystack_[2].value.as < SymEngine::RCP<const SymEngine::Basic> > ()));
+            s.insert(as_boolean(yystack_[0].value.as < SymEngine::RCP<const SymEngine::Basic> > ()));
             yylhs.value.as < SymEngine::RCP<const SymEngine::Basic> > () = rcp_static_cast<const Basic>(logical_and(s));
         }
 #line 932 "parser.tab.cc"
@@ -935,8 +951,8 @@ namespace yy {
 #line 173 "parser.yy"
         {
             vec_boolean s;
-            s.push_back(rcp_static_cast<const Boolean>(yystack_[2].value.as < SymEngine::RCP<const SymEngine::Basic> > ()));
-            s.push_back(rcp_static_cast<const Boolean>(yystack_[0].value.as < SymEngine::RCP<const SymEngine::Basic> > ()));
+            s.push_back(as_boolean(yystack_[2].value.as < SymEngine::RCP<const SymEngine::Basic> > ()));
+            s.push_back(as_boolean(yystack_[0].value.as < SymEngine::RCP<const SymEngine::Basic> > ()));
             yylhs.value.as < SymEngine::RCP<const SymEngine::Basic> > () = rcp_static_cast<const Basic>(logical_xor(s));
         }
 #line 943 "parser.tab.cc"
@@ -962,7 +978,7 @@ namespace yy {
 
   case 21: // expr: '~' expr
 #line 190 "parser.yy"
-        { yylhs.value.as < SymEngine::RCP<const SymEngine::Basic> > () = rcp_static_cast<const Basic>(logical_not(rcp_static_cast<const Boolean>(yystack_[0].value.as < SymEngine::RCP<const SymEngine::Basic> > ()))); }
+        { yylhs.value.as < SymEngine::RCP<const SymEngine::Basic> > () = rcp_static_cast<const Basic>(logical_not(as_boolean(yystack_[0].value.as < SymEngine::RCP<const SymEngine::Basic> > ()))); }
 #line 967 "parser.tab.cc"
     break;
 
